@@ -213,24 +213,26 @@ func (e *c16env) faulted(name string, batch []*nom.DetailedMomentum, ex c16expec
 						}
 						return
 					}
-					// known finding: rollback happens before anything is verified
-					if c.Known("C16/rollback-before-verify") {
-						tip := e.forkAt + verified
+					// the verified part of the delivered chain (the elements before the fault) is itself a delivered
+					// chain that passes verification: if it is strictly longer than the node's own branch the node
+					// may be on it, exactly; in every other case it must have stayed (checked above)
+					tip := e.forkAt + verified
+					if tip > e.topX {
 						okState := n.Height() == tip
 						if okState {
 							m, _ := e.a2.Chain.GetFrontierMomentumStore().GetMomentumByHeight(tip)
 							okState = m != nil && n.Frontier().Hash == m.Hash && n.Dump() == e.a2.DumpAt(m.Identifier())
 						}
-						if okState {
-							c.KnownHit("C16/rollback-before-verify")
-							if idx != i {
-								c.Failf("C16/fault-index", "%s: reported index %d, failing element is %d", what, idx, i)
-							}
-							return
+						if !okState {
+							c.Failf("C16/fault-state/"+kind, "%s: node is neither on its old chain nor on the verified (strictly longer) prefix of the delivered chain (height %d)", what, n.Height())
 						}
-						c.Failf("C16/fault-state/"+kind, "%s: node is neither on its old chain nor on the verified prefix of the delivered chain (height %d)", what, n.Height())
+						if idx != i {
+							c.Failf("C16/fault-index", "%s: reported index %d, failing element is %d", what, idx, i)
+						}
+						c.Class("fault-behind-a-longer-verified-prefix")
+						return
 					}
-					c.Failf("C16/rollback-before-verify", "%s: the node left its chain (height %d -> %d) for a delivered chain that fails verification", what, e.topX, n.Height())
+					c.Failf("C16/rollback-before-verify", "%s: the node left its chain (height %d -> %d) for a delivered chain whose verified part (up to height %d) is not longer than its own", what, e.topX, n.Height(), tip)
 				default:
 					// refused anyway (not longer / too deep / gap / all known): nothing may change
 					e.checkUnchanged(n, what, "C16/fault-state/"+kind)
